@@ -214,8 +214,8 @@ OPTION_GRID = {'aryule': _grid(norm=['biased', 'unbiased'], allow_singularity=[N
                'CORRELOGRAMPSD': _grid(norm=['biased', 'unbiased'], correlation_method=[None, 'xcorr', 'CORRELATION']),
                'CORRELATION': _grid(norm=['biased', 'unbiased', 'coeff', None]), 'xcorr': _grid(norm=['biased', 'unbiased', 'coeff']),
                'arburg': _grid(criteria=[None, 'AIC', 'AICc', 'KIC', 'AKICc', 'FPE', 'MDL']),
-               'music': [{'NSIG': 2}, {'threshold': 2.0}, {'criteria': 'aic'}, {'criteria': 'mdl'}],
-               'ev': [{'NSIG': 2}, {'threshold': 2.0}, {'criteria': 'aic'}, {'criteria': 'mdl'}],
+               'music': [{'NSIG': 2}, {'threshold': 2.0}, {'criteria': 'aic'}, {'criteria': 'mdl'}, {'threshold': 1.5}, {'threshold': 4.0}],
+               'ev': [{'NSIG': 2}, {'threshold': 2.0}, {'criteria': 'aic'}, {'criteria': 'mdl'}, {'threshold': 1.5}, {'threshold': 4.0}],
                'pmtm': _grid(method=['unity', 'eigen', 'adapt'])}
 
 
@@ -501,6 +501,10 @@ def run(ctx):
             if j < len(g):
                 cfg = {k: v for k, v in cfg.items() if k not in ('NSIG', 'threshold', 'criteria')} if name in ('music', 'ev') else cfg
                 cfg.update(g[j]); kind = kind + '+grid'
+                if 'threshold' in g[j]:
+                    # a rule that compares data-dependent quantities with each other: amplitudes far apart (a comparison of a quadratic with
+                    # a linear quantity flips only when |c| is far from 1)
+                    c = c / abs(c) * [1e3, 1e-3, 1e5][j % 3]
         tag = 'complex' if cplx else 'real'
         ctx.count('search/function/%s/%s/%s' % (name, tag, kind))
         ctx.case(('fn', name, json.dumps(jcfg(cfg), sort_keys=True), x.tobytes(), str(c)), nontrivial=True,
